@@ -128,6 +128,18 @@ class Spec:
         txt = ""
         if self.rng.chance(30) and not oneline:
             self.add(comment_line(self.rng, indent, pl, region))
+        if self.rng.chance(12) and not oneline:
+            # a string / character constant continued over a line with backslash-newline: the
+            # lines after it must still be numbered correctly
+            # (the continuation keeps the indentation: in indented code a line that starts in
+            # column one would end the code and be read as a rule)
+            if self.rng.chance(70) or indent:
+                self.add(indent + '{ static const char vt_s%d[] = "split \\' % i)
+                self.add(indent + 'string"; (void) vt_s%d; }' % i)
+            else:
+                self.add(indent + "{ int vt_c%d = '\\" % i)
+                self.add("x'; (void) vt_c%d; }" % i)
+            self.split_strings = getattr(self, "split_strings", 0) + 1
         ln = self.lineno()
         s = "vt_report(%d, __LINE__, __FILE__, %s, %d);" % (i, c_string(pl), len(pl))
         self.tracers.append({"id": i, "line": ln, "payload": pl, "region": region, "kind": name,
@@ -389,6 +401,8 @@ def worker(args):
 
     def feat(k, n=1):
         res["feats"][k] = res["feats"].get(k, 0) + n
+    if getattr(S, "split_strings", 0):
+        res["feats"]["strings_continued_over_lines"] = S.split_strings
     usestdout = (i % 5 == 4)
     args_ = ["-L"] if (noline and i % 2 == 0) else []
     hdr = None
@@ -501,6 +515,7 @@ def run(pid, tier):
     chk.require("backend:c99", 5)
     chk.require("headers_checked", 5)
     chk.require("comment_lines_between_rules", 10)
+    chk.require("strings_continued_over_lines", 5)
     chk.require("verbatim_blocks", 50)
     chk.require("verbatim_blocks_with_blank_runs", 5)
     return chk
